@@ -87,6 +87,18 @@ def alphabet(shape, names, block_sizes=(0,), seed=0):
       if g.ndim >= 1 and g.shape[0] >= 2:
         g[g.shape[0] // 2:] *= np.float32(2.0**-14)
       out[n] = g
+    elif n == "gRow0":   # only the first slice along axis 0 is non-zero
+      g = np.zeros_like(ga)
+      if g.ndim:
+        g[0] = ga[0]
+      else:
+        g = ga.copy()
+      out[n] = g
+    elif n == "gRow1s":  # only the second slice, 2^-14 times smaller
+      g = np.zeros_like(ga)
+      if g.ndim and g.shape[0] > 1:
+        g[1] = ga[1] * np.float32(2.0**-14)
+      out[n] = g
     elif n == "gS+":
       out[n] = (ga * np.float32(2.0**20)).astype(np.float32)
     elif n == "gS-":
